@@ -65,6 +65,7 @@ type Obligation struct {
 
 // Ctx is the VC-building context of one function (or lemma).
 type Ctx struct {
+	trustPre map[string]bool
 	prog     *Program
 	mode     Mode
 	pkg      *types.Package
